@@ -46,6 +46,12 @@ def run(P, rep, tier):
     from . import c02
 
     rep.attempt(c02.r3_typestate, P, rep, ctx)
+    # "the merged tree equals the overlay view": what merge copies is what the overlay resolution shows (child resolution and
+    # marker rules of C01.R1 / C01.R4)
+    from . import c01
+
+    rep.attempt(c01.r1_children, P, rep, ctx)
+    rep.attempt(c01.r4_markers, P, rep, ctx)
     rep.attempt(r2_frame, P, rep, ctx)
     rep.attempt(r2b_shared_subobjects, P, rep, ctx)
     rep.attempt(r3_identity, P, rep, ctx)
